@@ -4,6 +4,7 @@ import (
 	"fmt"
 	"net"
 	"os"
+	"runtime"
 	"runtime/pprof"
 	"strings"
 	"sync"
@@ -100,7 +101,17 @@ func runCStormInner(s *CStorm) (res cstormResult) {
 		return cstormResult{"harness", err.Error()}
 	}
 	_ = cl.Listen()
+	// the application looks at the client's accessors from another goroutine while Allocate runs
+	accDone := make(chan struct{})
+	go func() {
+		defer close(accDone)
+		for i := 0; i < 40; i++ {
+			_, _ = cl.Realm(), cl.Username()
+			runtime.Gosched()
+		}
+	}()
 	relay, err := cl.Allocate()
+	<-accDone
 	if err != nil {
 		_ = srv.Close()
 		n.CloseAll()
